@@ -27,7 +27,7 @@ for d in sorted(glob.glob(os.path.join(HERE, 'seeded', 'C*-m*'))):
     meta = {
         'id': name,
         'property_broken': prop,
-        'origin': 'independent sub-agent given only the property text and a scratch worktree',
+        'origin': (open(os.path.join(d, 'origin.txt')).read().strip() if os.path.exists(os.path.join(d, 'origin.txt')) else 'independent sub-agent given only the property text and a scratch worktree'),
         'what_it_needs_to_manifest': needs,
         'confirmed': {
             'patch_applies_to_repo_HEAD': ev.get('patch_applies'),
